@@ -113,9 +113,36 @@ def rule_gain(repo: Repo, rep: Report) -> int:
     return n
 
 
+def expand_evaluated(fi: FuncInfo):
+    """Run _expand_coefficients (own arithmetic) on labelled block tables for sequence lengths / coherence times that
+    divide, do not divide, and exceed each other: sample i of item b must carry coefficient h[b][i // T]."""
+    from ..constfold import Unfoldable
+    from ..frag import FragRaise, FragReturn, run_fragment
+
+    for L, T in ((6, 2), (7, 3), (5, 5), (5, 8), (4, 1), (9, 4)):
+        nb = -(-L // T)
+        for B in (1, 3):
+            h = [[100 * b + j for j in range(nb)] for b in range(B)]
+            try:
+                run_fragment(fi.body, {"h": h, "seq_length": L}, {"self.coherence_time": T}, max_steps=20000, materialise=True)
+                return UNDECIDED, "no value returned"
+            except FragReturn as r:
+                got = r.value
+            except (Unfoldable, FragRaise, TypeError, IndexError) as exc:
+                return UNDECIDED, f"not evaluable ({exc})"
+            want = [[h[b][i // T] for i in range(L)] for b in range(B)]
+            if got != want:
+                return VIOLATION, f"for {B} item(s), sequence length {L} and coherence time {T} the expansion of the block table {h} is {got}; sample i of item b must carry h[b][i // T] = {want} (constant within each coherence block, every item from its own coefficients)"
+    return OK, "sample i of item b carries h[b][i // T] for 6 (length, coherence time) pairs incl. non-divisors and T >= L, 1 and 3 items"
+
+
 def rule_expand(repo: Repo, rep: Report) -> int:
     fi = repo.func(AN, "FlatFadingChannel._expand_coefficients")
     n = 0
+    est_, ed_ = expand_evaluated(fi)
+    if est_ in (OK, VIOLATION):
+        rep.add("BLOCKS", fi, "_expand_coefficients evaluated on labelled block tables", est_, ed_, node=fi.node)
+        return 1
     bi = [s for s in stmts_of(fi.body) if isinstance(s, ast.Assign) and unparse(s.targets[0]) == "block_indices"]
     for s in bi:
         st, d, _ = classify(s.value, ["torch.arange(seq_length, device=device) // self.coherence_time", "torch.arange(seq_length) // self.coherence_time", "torch.div(torch.arange(seq_length, device=device), self.coherence_time, rounding_mode='floor')"])
@@ -174,8 +201,18 @@ def rule_forward(repo: Repo, rep: Report) -> int:
         rep.check(ok, "FORWARD", fi, f"{shape} input, csi and noise supplied: returns {' | '.join(sorted(got))[:200]}", "exactly h*x + n, restored to the input's shape", f"with caller-supplied channel state and noise the output must be {want}", node=fi.node)
         n += 1
     # real inputs are promoted to complex with zero imaginary part
-    prom = [s for s in stmts_of(fi.body) if isinstance(s, ast.If) and unparse(s.test) == "not torch.is_complex(x)"]
-    okp = len(prom) == 1 and len(prom[0].body) == 1 and match(prom[0].body[0], "x = torch.complex(x, torch.zeros_like(x))") is not None
+    prom = [s for s in stmts_of(fi.body) if isinstance(s, ast.If) and len(s.body) == 1 and match(s.body[0], "x = torch.complex(x, torch.zeros_like(x))") is not None]
+    from .c15 import tv_eval as _tv
+
+    def _real_test(t):
+        if unparse(t) == "not torch.is_complex(x)":
+            return True
+        if isinstance(t, ast.Name):
+            d_ = [s_.value for s_ in stmts_of(fi.body) if isinstance(s_, ast.Assign) and len(s_.targets) == 1 and isinstance(s_.targets[0], ast.Name) and s_.targets[0].id == t.id]
+            return len(d_) == 1 and unparse(d_[0]) == "not torch.is_complex(x)"
+        return False
+
+    okp = len(prom) == 1 and _real_test(prom[0].test)
     rep.shape(okp, False, "FORWARD", fi, f"real input promotion: {unparse(prom[0].body[0]) if prom else '(none)'}", "real signal becomes x + 0j", "real inputs are not promoted as x + 0j", node=prom[0] if prom else fi.node)
     n += 1
     # generated path: h = expand(generate(batch, L, device), L)
